@@ -11,6 +11,30 @@
 //!   comp_rt <hex>               -> ok <hex(Display)> | err | panic    (CompressionType::from_str then Display)
 use std::io::{BufRead, Write};
 use std::str::FromStr;
+use std::sync::atomic::{AtomicUsize, Ordering};
+
+/// counting allocator: `peak <command ...>` reports the largest single allocation request made while the command ran
+struct Counting;
+static LARGEST: AtomicUsize = AtomicUsize::new(0);
+unsafe impl std::alloc::GlobalAlloc for Counting {
+    unsafe fn alloc(&self, l: std::alloc::Layout) -> *mut u8 {
+        LARGEST.fetch_max(l.size(), Ordering::Relaxed);
+        unsafe { std::alloc::System.alloc(l) }
+    }
+    unsafe fn dealloc(&self, p: *mut u8, l: std::alloc::Layout) {
+        unsafe { std::alloc::System.dealloc(p, l) }
+    }
+    unsafe fn alloc_zeroed(&self, l: std::alloc::Layout) -> *mut u8 {
+        LARGEST.fetch_max(l.size(), Ordering::Relaxed);
+        unsafe { std::alloc::System.alloc_zeroed(l) }
+    }
+    unsafe fn realloc(&self, p: *mut u8, l: std::alloc::Layout, n: usize) -> *mut u8 {
+        LARGEST.fetch_max(n, Ordering::Relaxed);
+        unsafe { std::alloc::System.realloc(p, l, n) }
+    }
+}
+#[global_allocator]
+static A: Counting = Counting;
 
 fn unhex(s: &str) -> String {
     let s = if s == "-" { "" } else { s };
@@ -36,7 +60,56 @@ fn handle(line: &str) -> String {
     if p.is_empty() {
         return String::new();
     }
+    if p[0] == "peak" {
+        let rest = p[1..].join(" ");
+        LARGEST.store(0, Ordering::Relaxed);
+        let r = std::panic::catch_unwind(move || handle(&rest)).unwrap_or_else(|_| "panic".to_string());
+        return format!("{} peak={}", r, LARGEST.load(Ordering::Relaxed));
+    }
     match p[0] {
+        "clear_digest" => {
+            // parse a package, clear_signatures(), then verify_digests(): the recorded header digest must match the header
+            let b = unhex_bytes(p[1]);
+            match rpm::Package::parse(&mut &b[..]) {
+                Err(_) => "parse-err".to_string(),
+                Ok(mut pkg) => match pkg.clear_signatures() {
+                    Err(_) => "clear-err".to_string(),
+                    Ok(()) => {
+                        let has = pkg.metadata.signature.get_entry_data_as_string(rpm::IndexSignatureTag::RPMSIGTAG_SHA256).is_ok();
+                        let sigs = pkg.metadata.signature.entry_is_present(rpm::IndexSignatureTag::RPMSIGTAG_RSA)
+                            || pkg.metadata.signature.entry_is_present(rpm::IndexSignatureTag::RPMSIGTAG_OPENPGP);
+                        match pkg.verify_digests() {
+                            Ok(()) if has && !sigs => "ok".to_string(),
+                            Ok(()) => format!("bad sha256-present={} signature-left={}", has, sigs),
+                            Err(_) => "bad digest-mismatch".to_string(),
+                        }
+                    }
+                },
+            }
+        }
+        "deps" => {
+            // <hex metadata> <kind>: names/flags/versions of one dependency accessor
+            let b = unhex_bytes(p[1]);
+            match rpm::PackageMetadata::parse(&mut &b[..]) {
+                Err(_) => "parse-err".to_string(),
+                Ok(m) => {
+                    let r = match p[2] {
+                        "provides" => m.get_provides(), "requires" => m.get_requires(), "conflicts" => m.get_conflicts(), "obsoletes" => m.get_obsoletes(),
+                        "recommends" => m.get_recommends(), "suggests" => m.get_suggests(), "enhances" => m.get_enhances(), _ => m.get_supplements(),
+                    };
+                    match r {
+                        Err(_) => "err".to_string(),
+                        Ok(v) => format!("ok {}", v.iter().map(|d| format!("{}:{:x}:{}", hex(&d.name), d.flags.bits(), hex(&d.version))).collect::<Vec<_>>().join(",")),
+                    }
+                }
+            }
+        }
+        "fcaps" => {
+            let t = unhex(p[1]);
+            let a = rpm::FileOptions::new("/x").caps(t.clone()).is_ok();
+            let b = rpm::FileCaps::from_str(&t).is_ok();
+            format!("{} {}", a, b)
+        }
         "vercmp" => {
             let (a, b) = (unhex(p[1]), unhex(p[2]));
             let e1 = rpm::Evr::new("", a.as_str(), "");
@@ -119,6 +192,15 @@ fn handle(line: &str) -> String {
                     out.push(match h.get_entry_data_as_string_array(t) { Ok(v) => format!("strs={}", v.iter().map(|x| hexb(x.as_bytes())).collect::<Vec<_>>().join(",")), Err(_) => "strs=!".into() });
                     out.join(" ")
                 }
+            }
+        }
+        "with_file" => {
+            // <hex destination>: PackageBuilder::with_file on an existing source file with that destination
+            let dest = unhex(p[1]);
+            let src = std::env::current_exe().unwrap();
+            match rpm::PackageBuilder::new("x", "1.0", "MIT", "noarch", "d").with_file(&src, rpm::FileOptions::new(dest)) {
+                Ok(_) => "ok".to_string(),
+                Err(_) => "err".to_string(),
             }
         }
         "wsink" => {
@@ -230,6 +312,22 @@ fn handle(line: &str) -> String {
                         Ok(()) => format!("ok {}", hexb(&out)),
                         Err(_) => "write-err".to_string(),
                     }
+                }
+            }
+        }
+        "clear_offsets" => {
+            // parse, Header::clear() the signature header in place, then offsets vs written bytes
+            let b = unhex_bytes(p[1]);
+            match rpm::PackageMetadata::parse(&mut &b[..]) {
+                Err(_) => "parse-err".to_string(),
+                Ok(mut m) => {
+                    m.signature.clear();
+                    let o = m.get_package_segment_offsets();
+                    let mut out = Vec::new();
+                    m.write(&mut out).unwrap();
+                    let h = o.header as usize;
+                    let good = o.signature_header == 96 && out.len() as u64 == o.payload && h + 4 <= out.len() && out[h..h + 4] == [0x8e, 0xad, 0xe8, 0x01];
+                    format!("{} header={} payload={} written={}", if good { "ok" } else { "mismatch" }, o.header, o.payload, out.len())
                 }
             }
         }
